@@ -11,6 +11,7 @@
      float(w_str)                      -> parse_float (three-valued)
      G.add_edge(u, v, flow=w)          -> add_edge    (node / edge insertion order of networkx,
                                                        a repeated edge keeps its place and takes the new weight)
+     `if n == 0:` validation (fc0735f)    -> zero_block
      constraint validation loop        -> forallb (forallb (has_edge es)) cstr
      stDiGraph(G) source / sink test   -> has_source / has_sink   (get_width itself is NOT modelled)
      read_graphs block splitting       -> blocks_fuel (three `while` loops = three `span`s)
@@ -190,7 +191,8 @@ Definition parse_float (s : str) : pfloat :=
        end.
 
 (* ---------------------------------------------------------------- results *)
-Inductive perr := EMissingCount | EBadCount | EBadEdge | EBadWeight | EMissingConstraintEdge | ENoSource | ENoSink.
+Inductive perr := EMissingCount | EBadCount | EBadEdge | EBadWeight | EMissingConstraintEdge | ENoSource | ENoSink
+               | EZeroHasConstraints | EZeroHasEdges.
 Inductive res (A : Type) := Ok (a : A) | Error (e : perr) | Unmodelled.
 Arguments Ok {A} a. Arguments Error {A} e. Arguments Unmodelled {A}.
 
@@ -272,6 +274,15 @@ Definition has_sink (ns : list str) (es : list wedge) : bool :=
 Definition no_st (ns : list str) (e : perr) : res graph :=
   if existsb (fun x => (length x =? 1)%nat) ns then Unmodelled else Error e.
 
+(* the `if n == 0:` branch (since fc0735f): a block that declares 0 vertices may have neither subpath
+   constraints nor any line after the count that is not blank and does not start with '#' *)
+Definition skipped_line (l : str) : bool := is_blank l || is_hdr l.       (* not (line.strip() and not line.lstrip().startswith('#')) *)
+Definition zero_block (id : option str) (cstr : list (list (str * str))) (body : list str) : res graph :=
+  match cstr with
+  | _ :: _ => Error EZeroHasConstraints
+  | [] => if forallb skipped_line body then Ok {| gid := id; gcons := []; ginf := None |} else Error EZeroHasEdges
+  end.
+
 Definition read_graph (lines : list str) : res graph :=
   let '(rest, hdrs, cstr) := scan lines [] [] [] in
   match skip_blank rest with
@@ -281,7 +292,7 @@ Definition read_graph (lines : list str) : res graph :=
       | IBad => Error EBadCount
       | IUnm => Unmodelled
       | IOk n =>
-          if (n =? 0)%Z then Ok {| gid := hd_error hdrs; gcons := cstr; ginf := None |}
+          if (n =? 0)%Z then zero_block (hd_error hdrs) cstr body
           else match read_edges body ([], []) with
                | Error e => Error e
                | Unmodelled => Unmodelled
